@@ -102,6 +102,8 @@ impl RHCT {
 
     pub fn add_isa_string(&mut self, string: &'static str) -> IsaStringHandle {
         let node = IsaStringNode { string };
+        // the node and string lengths are 16-bit fields
+        assert!(node.len() <= u16::MAX as usize);
         let old_offset = self.handle_offset;
 
         self.handle_offset += node.len() as u32;
@@ -224,6 +226,8 @@ impl HartInfoNode {
     }
 
     pub fn with_cmo(mut self, cmo: &CmoHandle) -> Self {
+        // the node length is a 16-bit field
+        assert!(self.len() + core::mem::size_of::<u32>() <= u16::MAX as usize);
         self.handles.push(cmo.0);
         self
     }
